@@ -55,7 +55,10 @@ VALUES = {
     "rules:capitalisation.keywords:capitalisation_policy": ["upper", "lower", "consistent"],
     "templater:jinja:context:k1": ["v1", "v2", "v3"],
     "templater:jinja:context:k2": ["w1", "w2"],
+    # a path-valued setting: resolved relative to the directory of the config FILE that sets it
+    "templater:jinja:load_macros_from_path": ["macros", "macros", "sql_macros"],
 }
+PATH_KEY = "templater:jinja:load_macros_from_path"
 KEYS = sorted(VALUES)
 DEFAULTS = {
     "core:max_line_length": "80",
@@ -68,6 +71,7 @@ DEFAULTS = {
     "rules:capitalisation.keywords:capitalisation_policy": "consistent",
     "templater:jinja:context:k1": None,
     "templater:jinja:context:k2": None,
+    "templater:jinja:load_macros_from_path": None,
 }
 # one body for every file / string: its violations react to every probed key (line length 60/80 vs
 # 100/120, keyword capitalisation policy, indent size/unit, comma position, rule selection, jinja
@@ -162,6 +166,18 @@ def gen_world(rng: Rng) -> dict:
     if rng.chance(0.35):
         extra = "proj/extra_cfg/custom.cfg"
         sources[extra] = rand_kv(rng)
+    if rng.chance(0.3) and len(dirs) >= 2:
+        # two config files with byte-identical text in different directories, holding a relative path:
+        # each must resolve it against its OWN directory
+        fn = rng.choice(["pyproject.toml", "pyproject.toml", "tox.ini", "setup.cfg"])
+        d1, d2 = rng.sample(dirs, 2)
+        kv = rand_kv(rng, 1, 2, [k for k in KEYS if k not in ("core:dialect", PATH_KEY)])
+        kv[PATH_KEY] = "macros"
+        sources[d1 + "/" + fn] = dict(kv)
+        sources[d2 + "/" + fn] = dict(kv)
+    for p, kv in list(sources.items()):
+        if PATH_KEY in kv:
+            files[os.path.dirname(p) + "/" + kv[PATH_KEY] + "/vsim_macro.sql"] = {"b64": b64(b"{% macro vsim_noop() %}{% endmacro %}\n"), "mode": 0o644}
     for p, kv in sources.items():
         body = render_toml(kv) if p.endswith(".toml") else render_ini(kv)
         files[p] = {"b64": b64(body), "mode": 0o644}
@@ -243,8 +259,11 @@ def model(world: dict, fdir: str, inline: dict) -> tuple[dict, dict]:
     layers.append(dict(inline))
     vals = dict(DEFAULTS)
     seen: dict[str, set] = {k: set() for k in KEYS}
+    where = {id(kv): os.path.dirname(p_) for p_, kv in src.items()}
     for layer in layers:
         for k, v in layer.items():
+            if k == PATH_KEY and id(layer) in where:
+                v = "$ROOT/%s/%s" % (where[id(layer)], v)  # resolved against the setting file's directory
             vals[k] = str(v)
             seen[k].add(str(v))
     return vals, {k: len(v) for k, v in seen.items()}
@@ -331,6 +350,7 @@ def run_one(ctx: Any, seed: int, tier: str, replay: Optional[dict] = None) -> di
             probes["obs_key_set_by_2plus_sources"] += 1
         if after_other:
             probes["obs_after_other_dir_or_inline"] += 1
+        got = {k: (v.replace(root, "$ROOT") if isinstance(v, str) else v) for k, v in got.items()}
         bad = {k: (want[k], got.get(k)) for k in KEYS if got.get(k) != want[k]}
         if bad:
             k0 = sorted(bad)[0]
@@ -430,7 +450,8 @@ def run_one(ctx: Any, seed: int, tier: str, replay: Optional[dict] = None) -> di
                 # the shared Linter's own root config must not have absorbed the inline values
                 if "root_values" in r:
                     want_root, _ = model(world, cwd, {})
-                    bad = {k: (want_root[k], r["root_values"].get(k)) for k in KEYS if r["root_values"].get(k) != want_root[k]}
+                    rv = {k: (v.replace(root, "$ROOT") if isinstance(v, str) else v) for k, v in r["root_values"].items()}
+                    bad = {k: (want_root[k], rv.get(k)) for k in KEYS if rv.get(k) != want_root[k]}
                     evaluations += 1
                     if bad:
                         violations.append({"oracle": "root-config-mutated", "signature": "C27:isolation",
@@ -446,7 +467,7 @@ def run_one(ctx: Any, seed: int, tier: str, replay: Optional[dict] = None) -> di
         for frel in picks:
             opi_b, got_v = behaviour[frel]
             want, _ = model(world, world["sqls"][frel]["dir"], {})
-            flat = {k: v for k, v in want.items() if v is not None}
+            flat = {k: (v.replace("$ROOT", root) if isinstance(v, str) else v) for k, v in want.items() if v is not None}
             root2 = cl.new_root("C27b-%d-%s" % (seed, sha(frel)[:6]))
             try:
                 tree2: dict[str, Any] = {"home/u/": (None, 0o755), "proj/": (None, 0o755)}
